@@ -55,6 +55,9 @@ type Txn struct {
 	End      string `json:"end"` // commit, rollback, abandon
 	HoldAt   int    `json:"holdat,omitempty"`
 	HoldFor  string `json:"holdfor,omitempty"`
+	// CommitAfter: the transaction finishes its body, then waits for the named transaction to
+	// end before it calls Commit (staggered commits: bodies overlap, commits do not).
+	CommitAfter string `json:"commit_after,omitempty"`
 	// Retries: re-run the whole transaction on a commit conflict up to this many times.
 	Retries int `json:"retries,omitempty"`
 }
@@ -82,6 +85,8 @@ type Case struct {
 	MaxRand int             `json:"maxrand,omitempty"`
 	NoLat   bool            `json:"nolat,omitempty"`
 	KeepLog bool `json:"keeplog,omitempty"`
+	// Note: free-form tag attached by an enumerating check (e.g. the commit stage a crash point falls in).
+	Note string `json:"note,omitempty"`
 	Audit   bool `json:"audit,omitempty"`
 	// FaultPhase restricts faults to the group phase with this index (-1/0 = all).
 	FaultPhase int `json:"faultphase,omitempty"`
@@ -386,6 +391,9 @@ func (e *Env) runTxn(t *sim.Task, tx *Txn, phase, attempt int) *TxnResult {
 	}
 	switch tx.End {
 	case "commit":
+		if tx.CommitAfter != "" {
+			s.WaitDone(tx.CommitAfter)
+		}
 		s.Op("mark.commit", tx.Name)
 		r.CommitSeq = s.Seq()
 		r.SimCommit = int64(s.Elapsed())
@@ -430,6 +438,16 @@ func (e *Env) doOp(ctx context.Context, b b3, op *Op) (or OpResult) {
 		ok, err = b.Update(ctx, op.Key, op.Val)
 	case "updkey":
 		ok, err = b.UpdateKey(ctx, op.Key)
+	case "updcur": // Find + UpdateCurrentValue
+		ok, err = b.Find(ctx, op.Key, false)
+		if ok && err == nil {
+			ok, err = b.UpdateCurrentValue(ctx, op.Val)
+		}
+	case "rmcur": // Find + RemoveCurrentItem
+		ok, err = b.Find(ctx, op.Key, false)
+		if ok && err == nil {
+			ok, err = b.RemoveCurrentItem(ctx)
+		}
 	case "remove":
 		ok, err = b.Remove(ctx, op.Key)
 	case "find":
